@@ -280,17 +280,21 @@ Fixpoint slex_f (fuel : nat) (ls : slex) (src : list ch) (lineno : Z) : res slex
            let tb := sl_timebase ls in
            let push (x : res (Token.tok * list ch * Z)) : res slex_out :=
              do y <- x; let '(t, s', ln') := y in loop n' ls s' ln' harmony (acc ++ [SCore t]) in
+           (* readers that may answer with no token (reservation forms the core model reads: `l.Random(..)` ...) *)
+           let pusho (x : res (option Token.tok * list ch * Z)) : res slex_out :=
+             do y <- x; let '(ot, s', ln') := y in
+             loop n' ls s' ln' harmony (match ot with Some t => acc ++ [SCore t] | None => acc end) in
            if (c =? 32) || (c =? 9) || (c =? 13) || (c =? 124) || (c =? 59) then loop n' ls r ln harmony acc
            else if c =? 10 then loop n' ls r (ln + 1) harmony (acc ++ [SCore (TLineNo (ln + 1))])
            else if (c =? 99) || (c =? 100) || (c =? 101) || (c =? 102) || (c =? 103) || (c =? 97) || (c =? 98) then
              push (Ok (read_note c r ln))
            else if c =? 110 then push (read_note_n tb r ln)
            else if c =? 114 then push (Ok (read_rest r ln))
-           else if c =? 108 then push (read_length r ln)
-           else if c =? 111 then push (read_octave tb r ln)
+           else if c =? 108 then pusho (read_length tb r ln)
+           else if c =? 111 then pusho (read_octave tb r ln)
            else if ((c =? 113) || (c =? 118)) && negb (prefixb (zs "Add") r || ((c =? 113) && prefixb (zs "2Add") r)) then
-             (if c =? 113 then push (read_qlen tb r ln) else push (read_velocity tb r ln))
-           else if c =? 116 then push (read_timing tb r ln)
+             (if c =? 113 then pusho (read_qlen tb r ln) else pusho (read_velocity tb r ln))
+           else if c =? 116 then pusho (read_timing tb r ln)
            else if (c =? 112) || (c =? 121) then Unsupported U_SCMD
            else if is_upper c || (c =? 95) || (c =? 35) then
              let s := c :: r in
